@@ -21,4 +21,5 @@ package planner
 //@   loop 1 invariant sameslice(rangeslice, old(n.ordering))
 //@   ensures forall(k, 0 <= k && k < len(old(n.ordering)) && forall(i, 0 <= i && i < k, compareOf(docProp(docA, old(n.ordering)[i].FieldIndexes), docProp(docB, old(n.ordering)[i].FieldIndexes)) == 0) && compareOf(docProp(docA, old(n.ordering)[k].FieldIndexes), docProp(docB, old(n.ordering)[k].FieldIndexes)) != 0, r == ite(old(n.ordering)[k].Direction == mapper.DESC, compareOf(docProp(docA, old(n.ordering)[k].FieldIndexes), docProp(docB, old(n.ordering)[k].FieldIndexes)) > 0, compareOf(docProp(docA, old(n.ordering)[k].FieldIndexes), docProp(docB, old(n.ordering)[k].FieldIndexes)) < 0))
 //@   ensures forall(i, 0 <= i && i < len(old(n.ordering)), compareOf(docProp(docA, old(n.ordering)[i].FieldIndexes), docProp(docB, old(n.ordering)[i].FieldIndexes)) == 0) ==> !r
+//@   known C08-order-first-key-only ensures[1] excluding len(n.ordering) >= 2 && compareOf(docProp(docA, n.ordering[0].FieldIndexes), docProp(docB, n.ordering[0].FieldIndexes)) == 0
 //@   tags C08
